@@ -285,13 +285,28 @@ fn cli_folder_part(ctx: &mut Ctx, r: &mut Rng) {
         let name = if k % 2 == 0 { format!("monthly_xml_{y}-{mo:02}.xml") } else { format!("{y}-{mo:02}.xml") };
         let mislabelled = k % 3 == 2;
         let body = xml(if mislabelled { (y, mo + 1) } else { (y, mo) }, &[("USD", rate)]);
-        let text = format!("{y}-01-05 BUY ACME 100 @ 10\n{y}-{mo:02}-15 SELL ACME 40 @ 30 USD FEES 1.50 USD\n");
+        // the ledger's lines in any order, in one file or two (seed C08-s10: the CLI pre-filtered the folder by
+        // the months of the first and the last line, so an undated-order ledger lost its override)
+        let mut lines = vec![format!("{y}-01-05 BUY ACME 100 @ 10"), format!("{y}-{mo:02}-15 SELL ACME 40 @ 30 USD FEES 1.50 USD"),
+                             format!("{y}-{:02}-20 DIVIDEND ACME TOTAL 12 TAX 0", if mo > 2 { mo - 1 } else { 1 })];
+        if k % 4 != 0 { for i in (1..lines.len()).rev() { let j = r.below(i as u64 + 1) as usize; lines.swap(i, j); } }
+        if k % 4 == 3 { lines.reverse(); lines.sort_by(|a, b| b[..10].cmp(&a[..10])); }   // newest first
+        let text = lines.join("\n") + "\n";
         let sc = cli::Scratch::new();
-        sc.write("in.cgt", &text);
         std::fs::create_dir_all(sc.path("fx")).ok();
         sc.write(&format!("fx/{name}"), &body);
-        let o = cli::run(&sc, &["report", "in.cgt", "--format", "json", "--fx-folder", "fx"]);
-        let case = format!("# property C08\n# CLI: cgt-tool report in.cgt --format json --fx-folder fx, with fx/{name} giving USD {rate} for {}\n{text}", if mislabelled { "the following month (its Period contradicts its name)" } else { "that month" });
+        let two_files = k % 5 >= 3;
+        let o = if two_files {
+            ctx.ev.count("cli-fx-folder-two-files");
+            sc.write("a.cgt", &(lines[..1].join("\n") + "\n"));
+            sc.write("b.cgt", &(lines[1..].join("\n") + "\n"));
+            cli::run(&sc, &["report", "a.cgt", "b.cgt", "--format", "json", "--fx-folder", "fx"])
+        } else {
+            sc.write("in.cgt", &text);
+            cli::run(&sc, &["report", "in.cgt", "--format", "json", "--fx-folder", "fx"])
+        };
+        if lines.windows(2).any(|w| w[0][..10] > w[1][..10]) { ctx.ev.count("cli-fx-folder-lines-not-in-date-order"); }
+        let case = format!("# property C08\n# CLI: cgt-tool report {} --format json --fx-folder fx, with fx/{name} giving USD {rate} for {}\n{text}", if two_files { "a.cgt (the first line) b.cgt (the rest)" } else { "in.cgt" }, if mislabelled { "the following month (its Period contradicts its name)" } else { "that month" });
         let lib = cgt_money::load_cache_with_overrides(vec![RateFile { name: std::path::PathBuf::from(format!("fx/{name}")), modified: None, xml: body.clone() }]);
         match lib {
             Err(_) => { if o.code == Some(0) { ctx.ev.violation("oracle", "the CLI accepts an --fx-folder file that the loader refuses (period and name disagree)".into(), case); } }
